@@ -153,7 +153,13 @@ func init() {
 						if s.A&bStop == 0 {
 							c.Violate(ev.Pos, "[swap-without-timer-stop] a batch was flushed but its timer was not stopped")
 						}
-						if retNil || old == nil || prog.IdentObj(c.Info, ev.Results[0]) != old {
+						res := ev.Results[0]
+						if call, ok := ast.Unparen(res).(*ast.CallExpr); ok {
+							if e := soleReturnExpr(c.Info, call); e != nil {
+								res = e // `return b.takeBatchLocked()`: what the helper returns
+							}
+						}
+						if retNil || old == nil || prog.IdentObj(c.Info, res) != old {
 							c.Violate(ev.Pos, "[returns-other] Flush swapped the batch out but does not return the swapped-out slice: its items are lost")
 						}
 					} else {
